@@ -219,7 +219,7 @@ static std::string KnownDefect(const std::string& expr, const RealResult& /*real
 
 static constexpr uint32_t SET_LIMIT = 5000;
 static constexpr uint32_t STEP_LIMIT = 120000;  // > the real MAX_ITERATIONS (100000)
-static constexpr uint32_t QUICK_STEP_LIMIT = 3000;
+static constexpr uint32_t QUICK_STEP_LIMIT = 500;
 using meta_ast = ccl::meta::UniqueCPPtr<SyntaxTree>;
 
 //! Names that ASTInterpreter::NameCollector attaches to a node (nodeVars), by name instead of slot id.
